@@ -82,3 +82,50 @@ Theorem section_define : forall o p f A B st s w data mode,
     same_state st st' /\ fault w' = None /\ umask w' = umask w.
 Proof. exact Proofs_DefineRun.section_define. Qed.
 Print Assumptions section_define.
+
+(* ===== merged from Properties_DefineOutside.v ===== *)
+From PatchV Require Import Proofs_DefineOutside.
+
+(* Spec-level fact about the evaluator alone: whatever cpp_eval answers, the text lines standing at nesting depth 0
+   (outside, a counter over the four directives, no truth values) are an order-preserving sub-sequence of the answer,
+   for SYM defined and for SYM undefined alike. *)
+Theorem cpp_eval_outside : forall sym d ls o,
+  cpp_eval sym d ls = Some o -> subseq (outside sym 0 ls) o.
+Proof. exact Proofs_DefineOutside.cpp_eval_outside. Qed.
+Print Assumptions cpp_eval_outside.
+
+(* The clause "common lines stand outside any conditional", in the direction a reader relies on: every line of the -D
+   output that is outside all conditionals is, in order, a line of the new content (the same run without -D) AND of the
+   original file; nothing that belongs to one version only is ever written unguarded. *)
+Theorem outside_lines_common : forall o f p r,
+  define_macro o <> [] ->
+  Forall (line_ok (define_macro o)) f ->
+  Forall (fun h => body_ok (define_macro o) (body h)) (hunks p) ->
+  apply_patch o f p = Ok r ->
+  exists r', apply_patch (no_define o) f p = Ok r' /\
+             subseq (outside (define_macro o) 0 (r_out r)) (r_out r') /\
+             subseq (outside (define_macro o) 0 (r_out r)) f.
+Proof. exact Proofs_DefineOutside.outside_lines_common. Qed.
+Print Assumptions outside_lines_common.
+
+(* On a conforming patch A -> B the unguarded lines form a common sub-sequence of A and B. *)
+Theorem outside_lines_common_conforming : forall o p A B,
+  define_macro o <> [] -> verbose o = false -> (0 <= max_fuzz o)%Z ->
+  Conforming A B (hunks (effective o p)) -> (Z.of_nat (length A) < MAXZ)%Z ->
+  creation_guard (effective o p) A ->
+  Forall (line_ok (define_macro o)) A ->
+  Forall (fun h => body_ok (define_macro o) (body h)) (hunks p) ->
+  exists r, apply_patch o A p = Ok r /\
+            subseq (outside (define_macro o) 0 (r_out r)) A /\
+            subseq (outside (define_macro o) 0 (r_out r)) B.
+Proof. exact Proofs_DefineOutside.outside_lines_common_conforming. Qed.
+Print Assumptions outside_lines_common_conforming.
+
+Example outside_nonvacuous :
+  let A := [ex_l "a"; ex_l "b"; ex_l "c"] in
+  let p := mkPatch FUnified OpChange [] [] (bs "f") (bs "f") [] [] 0 0 [ex_h] in
+  match apply_patch ex_o A p with
+  | Ok r => outside (bs "SYM") 0 (r_out r) = [ex_l "a"]
+  | Throw _ => False
+  end.
+Proof. vm_compute. auto. Qed.
